@@ -399,7 +399,7 @@ peekparen(void)
 {
 	/* the tokens stay referenced by the context stack, so every lookahead needs its own storage */
 	struct array pending = {0};
-	struct token *t;
+	struct token *t, old;
 	struct frame *f;
 
 	t = ctxnext();
@@ -411,8 +411,11 @@ peekparen(void)
 		++f->ntoken;
 		return false;
 	}
+	/* a directive met while looking ahead uses tok as scratch space */
+	old = tok;
 	do t = arrayadd(&pending, sizeof(*t)), nextinto(t);
 	while (t->kind == TNEWLINE);
+	tok = old;
 	if (t->kind == TLPAREN)
 		return true;
 	t = pending.val;
